@@ -59,6 +59,7 @@ ASSUMPTIONS = [
 TRUSTED = ["Python zoneinfo + the TZif files under /usr/share/zoneinfo as the source of the model's zone tables",
            "hooks verif_hooks::set_clock, TimeTrigger::verif_get_next_time/verif_scheduled, "
            "TimeTriggerConfig::verif_parts"]
+RELEASE_TOO = True          # the sampled cases also run through the release-profile harness (see ./check)
 EXHAUSTIVE = {"quick": False, "thorough": False}
 
 F_OVERLAP = "F-C16-dst-overlap-panic"
